@@ -71,7 +71,8 @@ def _case(draw, tier):
     if prob(draw, 0.35):
         nest = {"depth": draw(st.sampled_from([1, 2]))}
     return {"topo": topo, "order": draw(st.permutations(list(range(len(topo))))), "sched": draw(st.lists(st.integers(0, 7), max_size=40)),
-            "nest": nest, "nest_draw": draw(st.lists(st.integers(0, 9), min_size=6, max_size=6)), "scheduled": draw(st.booleans())}
+            "nest": nest, "nest_draw": draw(st.lists(st.integers(0, 9), min_size=6, max_size=6)), "scheduled": draw(st.booleans()),
+            "select_all_error": prob(draw, 0.3)}
 
 
 def strategy(tier):
@@ -149,12 +150,15 @@ def check_case(case, ev):
         ctx = Ctx()
         g = make_graph(ctx, {"nodes": _materialise(nodes_order)}, flavour)
         vals = {**values0, **supplied}
+        # optionally every round asks for ALL outputs with on_missing="error": a pause is not a finished run, what is not
+        # produced yet is not "missing" (at the end everything is produced, so the policy never legitimately fires)
+        skw = {"select": list(g.outputs), "on_missing": "error"} if case.get("select_all_error") and g.outputs else {}
         if case["scheduled"]:
-            out, sched = run_scheduled(ctx, g, vals, case["sched"])
+            out, sched = run_scheduled(ctx, g, vals, case["sched"], **skw)
             if out.status == "deadlock":
                 raise Violation("c14.deadlock", f"round {rounds}: {out.error}")
         else:
-            out = run_async(g, vals)
+            out = run_async(g, vals, **skw)
         tag = f"round {rounds} supplied={sorted(supplied)}"
         if out.status == "completed":
             break
